@@ -1,14 +1,39 @@
-from .. import smt_units
-
 PROP = {
     "kani_groups": ["hk_otlp"],
-    "smt": [smt_units.unit_otlp_dispatch],
-    "technique": "bounded model checking (Kani/CBMC) of the three OTLP event encoders' accept/decline decision over symbolic events",
-    "functions": ['E2-cfg (mir2smt/cfgabs.py): <OtlpInner as Emitter>::emit dispatch: exactly one send or one discard per event, through the first configured and accepting signal in the order metrics, traces, logs (presence of signals and encoder answers are free booleans)'],
-    "bounds": "",
-    "outside": "",
-    "stubs": [],
-    "assumptions": [],
+    "smt": [],
+    "level_text": "Decides the accept/decline predicate of each of the three OTLP event encoders. The dispatch in "
+                  "<OtlpInner as Emitter>::emit (first configured and accepting signal in the order metrics, traces, logs; "
+                  "discard counter otherwise) is NOT decided here: OtlpInner owns a JoinHandle and three emit_batcher "
+                  "senders and cannot be driven under Kani without duplicating emit's logic; it is left to the MIR "
+                  "control-flow engine (E2-cfg).",
+    "technique": "bounded model checking (Kani/CBMC) of MetricsEventEncoder/TracesEventEncoder/LogsEventEncoder::encode_event(..).is_some() "
+                 "over symbolic events, with a RawEncoder that does not serialise (the decision is taken before E::encode)",
+    "functions": [
+        "emit_otlp::data::metrics::{MetricsEventEncoder::encode_event, DataPointBuilder::points_from_value (Extract stream), "
+        "SumPoints::{push_point_i64, push_point_f64, into_points}, RawPointSet::{push_point_i64, push_point_f64, into_points}}",
+        "emit_otlp::data::traces::TracesEventEncoder::encode_event",
+        "emit_otlp::data::logs::LogsEventEncoder::encode_event",
+        "emit::kind::{KindFilter::matches, is_span_filter, is_metric_filter, Kind::from_value, Kind::from_str}",
+        "emit::{Props::get, Props::pull, Value::{cast, downcast_ref, parse (text kinds), to_cow_str}, Extent::{as_range, as_point}}",
+    ],
+    "bounds": "kind in {absent, text span, text metric, other text, captured Kind::Span, captured Kind::Metric} (a constant of each "
+              "harness arm); extent in {none, point, range} symbolic; metric value in {missing, i64, f64, [i64; 2], [f64; 2], text, bool} "
+              "(a constant of each arm, the numbers symbolic over their full range); metric_agg in {absent, count, sum, other text} "
+              "symbolic; quick tier: the representative subset named q, thorough: all 6 x 7 kind/value combinations",
+    "outside": "the dispatch in <OtlpInner as Emitter>::emit and the discard counter (see level_text); which endpoint finally receives "
+               "the record; empty sequences (a gauge without points is declined, a sum of nothing is accepted), sequences longer "
+               "than 2, nested sequences, unsigned/128-bit values beyond i64 (sval streams them as text: declined) — not in the "
+               "bound; kind values that are neither text nor a captured emit::Kind; serialisation of the accepted record (C13)",
+    "stubs": [
+        "verif::NullEnc: RawEncoder whose encode() drops the record without streaming it",
+        "emit::Value::parse -> fails the harness when reached (captured-Kind harnesses only: the kind must come from the downcast; "
+        "without the stub the generic format-and-reparse path does not finish in 15 min)",
+        "kani -Z restrict-vtable (virtual calls restricted to functions present in a vtable of the trait method)",
+    ],
+    "assumptions": [
+        "the two elements of a float sequence are not both infinite (inf + -inf = NaN trips Kani's NaN-on-addition check, "
+        "which is not a Rust panic; NaN data points are outside this property)",
+    ],
     "timeout": {"quick": 700, "thorough": 1800},
-    "slow_first": [r"_metrics_(text|captured)_(i64|f64|seq)"],
+    "slow_first": [r"_metrics_captured_", r"_metrics_text_(i64|f64|seq|text|bool|missing)", r"_metrics_"],
 }
